@@ -84,11 +84,13 @@ func c09Judge(cs *core.Case, in []byte) bool {
 		}
 		return true
 	}
-	// KF3: a REMB frame whose wire mantissa is 0
+	// KF3: a REMB frame whose wire mantissa is 0 decodes to 2^(exp+23); from exponent 58 on that is
+	// above the largest encodable bitrate, so re-encoding saturates and the round trip is not stable
+	// (below 58 the wrongly decoded value re-encodes exactly and nothing is tolerated)
 	off := 0
 	for off+4 <= len(in) {
 		fl := 4 * (int(in[off+2])<<8 | int(in[off+3]) + 1)
-		if in[off+1] == 206 && in[off]&0x1F == 15 && off+20 <= len(in) && in[off+17]&3 == 0 && in[off+18] == 0 && in[off+19] == 0 {
+		if in[off+1] == 206 && in[off]&0x1F == 15 && off+20 <= len(in) && in[off+17]&3 == 0 && in[off+18] == 0 && in[off+19] == 0 && in[off+17]>>2 >= 58 {
 			kf3 = true
 		}
 		off += fl
